@@ -73,7 +73,25 @@ func runC11(c *ctx, via string, vol float64, repeat, freq, peak, sd time.Duratio
 		if via == "rates-jitter" {
 			jit = 80
 		}
-		rates, err := gaussian.CalculateGaussianRate(vol, jit, repeat, freq, peak, sd, strings.Join(ws, ","), "none")
+		wstr := strings.Join(ws, ",")
+		if via == "rates-sloppy" && nw > 0 {
+			// the weight list as people type it: a trailing, leading or doubled comma. Such a list is either refused or
+			// means its non-empty entries - an empty entry is not a weight (least of all a silent window)
+			switch c.rng.Intn(3) {
+			case 0:
+				wstr += ","
+			case 1:
+				wstr = "," + wstr
+			default:
+				wstr = strings.Replace(wstr, ",", ",,", 1)
+			}
+			tr.Args += " written=" + wstr
+		}
+		rates, err := gaussian.CalculateGaussianRate(vol, jit, repeat, freq, peak, sd, wstr, "none")
+		if err != nil && via == "rates-sloppy" {
+			tr.Via = "refused"
+			return tr
+		}
 		if err != nil {
 			tr.Err = err.Error()
 			tr.Panicked = true
@@ -207,7 +225,12 @@ func init() {
 			if k%7 == 3 {
 				via = "rates-jitter"
 			}
-			w.write(runC11(c, via, vol, repeat, freq, peak, sd, weights, t0))
+			if k%9 == 6 && len(weights) > 0 {
+				via = "rates-sloppy"
+			}
+			if tr := runC11(c, via, vol, repeat, freq, peak, sd, weights, t0); tr.Via != "refused" {
+				w.write(tr)
+			}
 		}
 		// the defaults of the CLI: 24 h window, 1 s ticks, peak 14 h, sd 150 min, weekly weights
 		w.write(runC11(c, "rates", 86400, 24*time.Hour, time.Second, 14*time.Hour, 150*time.Minute, nil, time.Date(2024, 3, 4, 0, 0, 0, 0, time.UTC)))
